@@ -177,6 +177,22 @@ fn oracle(case: &Case, run: &RunOut, ctx: &mut Ctx) -> Result<(), Fail> {
             }
         }
     }
+    // an emission wholly enclosed by another, delivered one cannot have been refused (into_inner case): the enclosing call
+    // either held its strong reference all along, or obtained it later still — so the recorder had not been recovered
+    if case.owner_into_inner {
+        let pos = |want: &dyn Fn(&Ev) -> bool| run.events.iter().position(|e| want(e));
+        let ids: Vec<(usize, usize)> = run.events.iter().filter_map(|e| if let Ev::EmitStart(t, k) = e { Some((*t, *k)) } else { None }).filter(|(t, _)| *t != 99).collect();
+        for a in &ids {
+            let (Some(a0), Some(a1)) = (pos(&|e| matches!(e, Ev::EmitStart(t, k) if (*t, *k) == *a)), pos(&|e| matches!(e, Ev::EmitEnd(t, k, true) if (*t, *k) == *a))) else { continue };
+            for e in ids.iter().filter(|e| *e != a) {
+                let (Some(e0), Some(e1)) = (pos(&|x| matches!(x, Ev::EmitStart(t, k) if (*t, *k) == *e)), pos(&|x| matches!(x, Ev::EmitEnd(t, k, _) if (*t, *k) == *e))) else { continue };
+                if a0 < e0 && e1 < a1 {
+                    ensure!(matches!(run.events[e1], Ev::EmitEnd(_, _, true)), "emission-lost-while-handle-alive", "emission {:?} ran entirely while the delivered emission {:?} was in progress (so the recorder had not been recovered), yet it did not reach the recorder; events {:?}; trace {:?}", e, a, run.events, out.trace);
+                    ctx.class("emission-enclosed-by-a-delivered-one");
+                }
+            }
+        }
+    }
     // no call may enter the recorder after its finalisation began
     // (handles the recorder handed out earlier are its own objects and may outlive it; only
     // describe/register calls "enter the recorder")
